@@ -68,7 +68,8 @@ def run(ctx):
             .call_function("u_to_ubi", [U, cell])
         B = Opaque("form_b_mat(%s)" % vkey(cell), (3, 3))
         want = N.ref("inv(dot(U, B))*tau", {"U": U, "B": B, "tau": tau})
-        ctx.check(same(got, want) and [n_ for n_, a in log] == ["form_b_mat"] and log[0][1][0] is cell,
+        # (the opaque value of form_b_mat carries the argument it was called with: the comparison of values covers the call)
+        ctx.check(same(got, want),
                   "C02:shape:%s.u_to_ubi" % short,
                   "u_to_ubi is not tau*inv(dot(U, form_b_mat(unit_cell))): %s" % vkey(got)[:160], core.loc(mod, fn),
                   sample={"function": "%s.u_to_ubi" % short, "value": vkey(got)[:160]})
@@ -84,30 +85,25 @@ def run(ctx):
         log = []
         got = Evaluator(mod, inline=set(), call_policy=opaque_policy(log), branch_policy=N.skip_checks_policy) \
             .call_function("ubi_to_u", [ubi])
-        names = [n_ for n_, a in log]
-        okc = names == ["ubi_to_cell", "form_b_mat"] and same(log[0][1][0], ubi)
-        if okc:
-            c_ = Opaque("ubi_to_cell(%s)" % vkey(log[0][1][0]), (6,))
-            okc = vkey(log[1][1][0]) == c_.key()
-            Bc = Opaque("form_b_mat(%s)" % c_.key(), (3, 3))
-            want = N.ref("transpose(dot(B, X))/tau", {"B": Bc, "X": ubi, "tau": tau})
-            okc = okc and same(got, want)
+        c_ = Opaque("ubi_to_cell(%s)" % vkey(ubi), (6,))
+        Bc = Opaque("form_b_mat(%s)" % c_.key(), (3, 3))
+        want = N.ref("transpose(dot(B, X))/tau", {"B": Bc, "X": ubi, "tau": tau})
+        okc = same(got, want)
         ctx.check(okc, "C02:shape:%s.ubi_to_u" % short,
                   "ubi_to_u is not transpose(dot(form_b_mat(ubi_to_cell(ubi)), ubi))/tau", core.loc(mod, fn))
         # ---- ubi_to_u_b == ub_to_u_b(tau * inv(ubi))
         fn = mod.func("ubi_to_u_b"); ctx.saw(mod, fn)
         log = []
         got = Evaluator(mod, inline=set(), call_policy=opaque_policy(log)).call_function("ubi_to_u_b", [ubi])
-        ok = len(log) == 1 and log[0][0] == "ub_to_u_b" and same(log[0][1][0], N.ref("inv(X)*tau", {"X": ubi, "tau": tau}))
-        ok = ok and isinstance(got, tuple) and len(got) == 2 and isinstance(got[0], Opaque) and got[0].base.startswith("ub_to_u_b.U(") \
-            and isinstance(got[1], Opaque) and got[1].base.startswith("ub_to_u_b.B(")
+        argk = vkey(N.ref("inv(X)*tau", {"X": ubi, "tau": tau}))
+        ok = isinstance(got, tuple) and len(got) == 2 and isinstance(got[0], Opaque) and got[0].base == "ub_to_u_b.U(%s)" % argk \
+            and isinstance(got[1], Opaque) and got[1].base == "ub_to_u_b.B(%s)" % argk
         ctx.check(ok, "C02:shape:%s.ubi_to_u_b" % short, "ubi_to_u_b is not ub_to_u_b(tau*inv(ubi))", core.loc(mod, fn))
         # ---- ubi_to_rod == u_to_rod(ubi_to_u(ubi))
         fn = mod.func("ubi_to_rod"); ctx.saw(mod, fn)
         log = []
         got = Evaluator(mod, inline=set(), call_policy=opaque_policy(log)).call_function("ubi_to_rod", [ubi])
-        ok = [n_ for n_, a in log] == ["ubi_to_u", "u_to_rod"] and same(log[0][1][0], ubi) \
-            and vkey(log[1][1][0]) == "ubi_to_u(%s)" % vkey(ubi) and isinstance(got, Opaque) and got.base.startswith("u_to_rod(")
+        ok = isinstance(got, Opaque) and got.base == "u_to_rod(%s)" % vkey(Opaque("ubi_to_u(%s)" % vkey(ubi), (3, 3)))
         ctx.check(ok, "C02:shape:%s.ubi_to_rod" % short, "ubi_to_rod is not u_to_rod(ubi_to_u(ubi))", core.loc(mod, fn))
         # ---- ub_to_u_b: QR + sign normalisation
         fn = mod.func("ub_to_u_b"); ctx.saw(mod, fn)
